@@ -517,11 +517,15 @@ def verbatim_loads(rule, prog, ctor, adt_path, fields, what):
     ctors = [ctor] if isinstance(ctor, str) else list(ctor)
     aggs = []
     mut_borrowed_of = {}
+    from engine import mir as _mir0
+    # a private helper struct embedded in the owner only groups some of its fields: its aggregate builds those fields
+    helpers_ = {d["helper"]: d for d in _mir0.DISSOLVE.values() if d["owner"] == adt_path}
     for ck in ctors:
         b_ = _roles.ib(prog, ck)
         for i in b_.rblocks:
             for st in b_.blocks[i]["stmts"]:
-                if st["k"] == "assign" and st["rv"]["k"] == "aggregate" and st["rv"].get("agg") == "adt" and st["rv"].get("adt") == adt_path:
+                if st["k"] == "assign" and st["rv"]["k"] == "aggregate" and st["rv"].get("agg") == "adt" and \
+                        (st["rv"].get("adt") == adt_path or st["rv"].get("adt") in helpers_):
                     aggs.append((b_, i, st))
         mb = {}
         for (i, j, st) in b_.stmts():
@@ -539,6 +543,8 @@ def verbatim_loads(rule, prog, ctor, adt_path, fields, what):
         for (b, i, st) in aggs:
             mut_borrowed = mut_borrowed_of[id(b)]
             names = [str(x) for x in st["rv"].get("fields") or []]
+            if st["rv"].get("adt") in helpers_:
+                names = [helpers_[st["rv"]["adt"]]["rename"].get(x, x) for x in names]
             if f not in names:
                 continue
             op = st["rv"]["ops"][names.index(f)]
